@@ -72,7 +72,7 @@ func limiterBody(c *runner.Ctx) {
 		nOps := 1 + c.Choose(5, "ops")
 		script := make([]int, nOps)
 		for i := range script {
-			script[i] = c.Choose(9, "op")
+			script[i] = c.Choose(11, "op")
 		}
 		startDelay := time.Duration(c.Choose(4, "start-delay")) * time.Millisecond
 		withCancel := c.Biased(3, 700, "task-cancel")
@@ -197,6 +197,63 @@ func limiterBody(c *runner.Ctx) {
 					}
 					for !helperDone {
 						simrt.Sleep(time.Millisecond)
+					}
+				case 9: // the function run under a temporary release panics; the caller recovers and carries on
+					stuckWhere[k] = "TemporarilyRelease+panic"
+					c.Probe("panic-during-temporary-release")
+					func() {
+						defer func() {
+							if p := recover(); p == nil {
+								c.Violate("panic-swallowed", "a panic inside TemporarilyRelease did not reach the caller")
+							}
+						}()
+						concurrencylimiter.TemporarilyRelease(hctx, func() {
+							if h.held {
+								h.held = false
+								m.dec(who + " TR-start")
+							}
+							simrt.Sleep(time.Duration(c.Choose(3, "tr-work")) * time.Millisecond)
+							panic("boom in temporarily released section")
+						})
+					}()
+					if h.real && !h.released && !h.held {
+						h.held = true
+						m.inc(who + " TR-return after panic")
+					}
+				case 10: // fan out: children acquire on the holder's context while the parent waits under a temporary release
+					stuckWhere[k] = "fan-out"
+					c.Probe("acquire-on-a-holders-context")
+					nKids := 1 + c.Choose(3, "children")
+					kidsDone := 0
+					for j := 0; j < nKids; j++ {
+						kid := fmt.Sprintf("%s.child%d", who, j)
+						work := time.Duration(1+c.Choose(3, "child-work")) * time.Millisecond
+						go func() {
+							defer func() { kidsDone++ }()
+							cctx, crel := concurrencylimiter.Acquire(hctx)
+							real := cctx != hctx
+							if real {
+								m.inc(kid + " Acquire")
+							}
+							simrt.Sleep(work)
+							if real {
+								m.dec(kid + " release")
+							}
+							crel()
+						}()
+					}
+					concurrencylimiter.TemporarilyRelease(hctx, func() {
+						if h.held {
+							h.held = false
+							m.dec(who + " TR-start")
+						}
+						for i := 0; kidsDone < nKids && i < 20000; i++ {
+							simrt.Sleep(time.Millisecond)
+						}
+					})
+					if h.real && !h.released && !h.held {
+						h.held = true
+						m.inc(who + " TR-return")
 					}
 				case 7: // temporary release on a context without holder, Acquire on a context without limiter
 					stuckWhere[k] = "no-limiter ops"
